@@ -71,6 +71,9 @@ fn check(h: &[Op]) -> Option<Witness> {
             if declared == 0 && !cells.is_empty() && cells.iter().all(|c| *c == "DEFAULT") { continue; } // DEFAULT VALUES path
             if cells.len() != declared { return w(format!("{sql}"), "every VALUES row has as many cells as the column list"); }
             firsts.push(cells.first().and_then(|c| c.parse::<i32>().ok()).unwrap_or(-1) / 10);
+            // cells in call order: the j-th cell of a row is the j-th expression given (row(k, base) numbers them base*10 + j)
+            let nums: Vec<i32> = cells.iter().filter_map(|c| c.parse::<i32>().ok()).collect();
+            if nums.len() == cells.len() && nums.iter().enumerate().any(|(j, v)| *v != nums[0] - nums[0] % 10 + j as i32) { return w(format!("{sql}"), "the cells of every row in call order"); }
         }
         if select.is_none() && firsts.iter().map(|&x| x as usize).collect::<Vec<_>>() != rows { return w(format!("{sql} (rows from calls {firsts:?})"), &format!("rows of calls {rows:?} in call order")); }
     }
